@@ -12,8 +12,22 @@ use vcore::conditions::{evaluate, MFlags, MVisitor, Verdict};
 use vcore::report::run_cases;
 use vcore::{hx, Args, Report, Rng, Sx};
 
+/// coin id -> model's tree hash of the revealed puzzle; and, for every spend that is the only one
+/// with its (parent, amount), `reveal_slot(parent, amount)` -> the same hash, so that a result
+/// reporting a wrong puzzle hash (and therefore another coin id) is still matched to its reveal
 pub fn reveals_of(b: &ABundle) -> HashMap<[u8; 32], [u8; 32]> {
-    b.spends.iter().map(|s| (s.coin_id(), puzzle(s.puzzle_idx).tree_hash())).collect()
+    let mut m: HashMap<[u8; 32], [u8; 32]> =
+        b.spends.iter().map(|s| (s.coin_id(), puzzle(s.puzzle_idx).tree_hash())).collect();
+    let mut slots: HashMap<[u8; 32], Vec<[u8; 32]>> = HashMap::new();
+    for s in &b.spends {
+        slots.entry(crate::common::reveal_slot(&s.parent, s.amount)).or_default().push(puzzle(s.puzzle_idx).tree_hash());
+    }
+    for (k, v) in slots {
+        if v.len() == 1 {
+            m.insert(k, v[0]);
+        }
+    }
+    m
 }
 
 /// judge one pair of results obtained from identical arguments
